@@ -1439,8 +1439,15 @@ func (t *tr) ret(s *ast.ReturnStmt) string {
 }
 
 func main() {
+	// -corpus: translate a file of sample functions (harness/c19/trcorpus.go) into a module of its own with dispatch tables
+	// instead of the error-identity facts: the differential run executes it against the Go functions (translator self-check)
+	corpus := false
+	if len(os.Args) == 4 && os.Args[1] == "-corpus" {
+		corpus = true
+		os.Args = append(os.Args[:1], os.Args[2:]...)
+	}
 	if len(os.Args) != 3 {
-		fmt.Fprintln(os.Stderr, "usage: translate-safemath <safe_math.go> <out.lean>")
+		fmt.Fprintln(os.Stderr, "usage: translate-safemath [-corpus] <safe_math.go> <out.lean>")
 		os.Exit(2)
 	}
 	fset := token.NewFileSet()
@@ -1450,8 +1457,13 @@ func main() {
 		os.Exit(1)
 	}
 	var out strings.Builder
-	out.WriteString("import Hive.Base.GoInt\nimport Hive.Model.SafeMathOps\nimport Hive.Model.SafeMathErr\n/-! GENERATED by harness/tools/translate-safemath from core/safemath/safe_math.go — do not edit. -/\n")
-	out.WriteString("namespace Hive.Gen.SafeMath\nopen Hive.GoInt\n\n")
+	if corpus {
+		out.WriteString("import Hive.Base.GoInt\nimport Hive.Model.SafeMathOps\n/-! GENERATED by harness/tools/translate-safemath -corpus from harness/c19/trcorpus.go — do not edit. -/\n")
+		out.WriteString("namespace Hive.Gen.SafeMathCorpus\nopen Hive.GoInt\n\n")
+	} else {
+		out.WriteString("import Hive.Base.GoInt\nimport Hive.Model.SafeMathOps\nimport Hive.Model.SafeMathErr\n/-! GENERATED by harness/tools/translate-safemath from core/safemath/safe_math.go — do not edit. -/\n")
+		out.WriteString("namespace Hive.Gen.SafeMath\nopen Hive.GoInt\n\n")
+	}
 	var allErrs []string
 	var names []string
 	// package-level error variables: names first (an error expression may mention any of them), then definitions
@@ -1721,6 +1733,32 @@ func main() {
 		}
 	}
 	fmt.Fprintf(&out, "def translated : List String := [%s]\n\n", `"`+strings.Join(names, `", "`)+`"`)
+	if corpus {
+		var gen, wide []string
+		for _, n := range names {
+			sg := sigs[n]
+			switch {
+			case sg.generic && sg.result == "res" && sg.resTy == "T" && len(sg.params) == 2 && sg.params[0] == "T" && sg.params[1] == "T":
+				gen = append(gen, fmt.Sprintf("(%s, %s)", leanStr(n), leanFn(n)))
+			case !sg.generic && sg.result == "res" && sg.resTy == "uint64" && len(sg.params) == 2 && sg.params[0] == "uint64" && sg.params[1] == "uint64":
+				wide = append(wide, fmt.Sprintf("(%s, %s)", leanStr(n), leanFn(n)))
+			}
+		}
+		fmt.Fprintf(&out, "/-- the functions of shape `f[T](x, y T) (T, error)` -/\ndef corpusGeneric : List (String × (IntTy → Int → Int → Res Int)) := [%s]\n\n", strings.Join(gen, ", "))
+		fmt.Fprintf(&out, "/-- the functions of shape `f(x, y uint64) (uint64, error)` -/\ndef corpusU64 : List (String × (Int → Int → Res Int)) := [%s]\n\nend Hive.Gen.SafeMathCorpus\n", strings.Join(wide, ", "))
+		if len(allErrs) > 0 {
+			for _, e := range allErrs {
+				fmt.Fprintln(os.Stderr, "translate-safemath:", e)
+			}
+			os.Exit(1)
+		}
+		if err := os.WriteFile(os.Args[2], []byte(out.String()), 0o644); err != nil {
+			fmt.Fprintln(os.Stderr, err)
+			os.Exit(1)
+		}
+
+		return
+	}
 	// error identities
 	ws, err := wrappers(filepath.Join(filepath.Dir(os.Args[1]), "..", "..", "ierrors", "ierrors_no_stacktrace.go"))
 	if err != nil {
